@@ -435,7 +435,7 @@ func (e *BinaryOpExpr) execStringBetween(kv KVPair, ctx *ExecuteCtx) (any, error
 	if err != nil {
 		return false, err
 	}
-	cmp, err := execStringCompare(lval, uval, "<")
+	cmp, err := execStringCompare(lval, uval, "<=")
 	if err != nil {
 		return false, err
 	}
@@ -483,7 +483,7 @@ func (e *BinaryOpExpr) execNumberBetween(kv KVPair, ctx *ExecuteCtx) (any, error
 	if err != nil {
 		return false, err
 	}
-	cmp, err := execNumberCompare(lval, uval, "<")
+	cmp, err := execNumberCompare(lval, uval, "<=")
 	if err != nil {
 		return false, err
 	}
